@@ -149,7 +149,8 @@ func runC09(ctx *Ctx, c *c09Case) {
 		// a fault that already hits the very first cycle (e.g. the initial PWM read) ends regulation before the curve is
 		// evaluated once: then the fan must have been handed back, and the RPM monitor keeps Run() alive
 		if time.Since(began) > 500*time.Millisecond && atomic.LoadInt64(&rig.Evals) == 0 {
-			if ok, _ := rig.restoredOK(false); ok && atomic.LoadInt64(&rig.Events) > 0 && time.Since(began) > 2*time.Second {
+			active := atomic.LoadInt64(&rig.Events) > 0 || (c.Spec.FanKind == "cmd" && len(rig.cmdWrites()) > 0)
+			if ok, _ := rig.restoredOK(false); ok && active && time.Since(began) > 2*time.Second {
 				firstCycleFailed = true
 				break
 			}
@@ -266,7 +267,14 @@ func runC09(ctx *Ctx, c *c09Case) {
 	_ = permanent
 }
 
-var c09Curves = []string{"linear", "pid", "function-linear-pid", "function-function"}
+var c09Curves = func() []string {
+	out := []string{"linear", "pid", "function-linear-pid", "function-function"}
+	// every function type over members that can all fail at once (PID members read their sensor synchronously)
+	for _, t := range []string{"sum", "difference", "delta", "minimum", "maximum", "average"} {
+		out = append(out, "fn:"+t+":pid+pid", "fn:"+t+":nested-pid", "fn:"+t+":lin+pid")
+	}
+	return out
+}()
 
 func c09Singles(spec RigSpec) []c09Fault {
 	var out []c09Fault
@@ -313,7 +321,7 @@ func init() {
 			}
 		}
 		rand.New(rand.NewSource(ctx.Seed)).Shuffle(len(cases), func(i, j int) { cases[i], cases[j] = cases[j], cases[i] })
-		limit := 420
+		limit := 900
 		if ctx.Thorough() {
 			limit = len(cases)
 		}
